@@ -104,7 +104,8 @@ From Msm Require Import Spec Lemmas_Sim Lemmas_Core Lemmas_SpecRun Lemmas_SpecQu
 
 (* `sp_qop` extends the specification function (Spec.v) by one pending list: enqueue_event appends to it; start(),
    process_event (after the event's own step) and execute_queued_events dispatch what it holds oldest first, each stored
-   occurrence as one complete step (`sp_drain`), and empty it; stop() leaves it alone.  For every core definition, every
+   occurrence as one complete step (`sp_drain`), and empty it; execute_single_queued_event dispatches exactly the oldest
+   one and leaves the rest; stop() leaves it alone.  For every core definition, every
    history of these operations (behaviours only observe) and every guard valuation the back engine (either compile
    policy) is this function: every stored occurrence is dispatched exactly once, in storage order, never inside another
    step - same behaviour invocations, order, arguments and configurations. *)
